@@ -8430,8 +8430,10 @@ impl<'a> Parser<'a> {
                     // If the last segment was a number, we must check that it's followed by whitespace,
                     // otherwise foo-123a will be parsed as `foo-123` with the alias `a`.
                     if requires_whitespace {
-                        let token = self.next_token();
-                        if !matches!(token.token, Token::EOF | Token::Whitespace(_)) {
+                        // look at the raw next token without consuming it: only a word or
+                        // number glued to the digits is a problem
+                        let token = self.peek_token_no_skip();
+                        if matches!(token.token, Token::Word(_) | Token::Number(_, _)) {
                             return self
                                 .expected("whitespace following hyphenated identifier", token);
                         }
